@@ -22,6 +22,7 @@ func TestLifecycle(t *testing.T) {
 		lifecycleCauses(t, h)
 		lifecycleCuts(t, h)
 		lifecycleTwoNamespaces(t, h)
+		lifecycleConnectDuringClose(t, h)
 	})
 }
 
@@ -555,6 +556,69 @@ func lifecycleTwoNamespaces(t *testing.T, h *H) {
 			}
 			if leftB != 0 || roomsB != 0 {
 				h.Violation("C06", "a closed connection leaves a socket behind on the server", desc, fmt.Sprintf("Of(/b).Sockets()=%d, sockets known to its adapter=%d", leftB, roomsB))
+			}
+		}
+	}
+}
+
+// Server.Close while an existing socket's disconnecting handler takes 800 ms; a new client connects 100 / 400 ms into the close.
+// After Close has returned, nothing is left: the newcomer was refused, or it was closed like the others.
+func lifecycleConnectDuringClose(t *testing.T, h *H) {
+	for _, tr := range []string{"polling", "websocket"} {
+		for _, into := range []time.Duration{100 * time.Millisecond, 400 * time.Millisecond} {
+			var mu sync.Mutex
+			conn, disc := 0, 0
+			left, known := -1, -1
+			bConnected := false
+			synctest.Test(t, func(t *testing.T) {
+				r := newRig(nil)
+				r.server.OnConnection(func(s sio.ServerSocket) {
+					mu.Lock()
+					conn++
+					mu.Unlock()
+					s.OnDisconnecting(func(sio.Reason) { time.Sleep(800 * time.Millisecond) })
+					s.OnDisconnect(func(sio.Reason) { mu.Lock(); disc++; mu.Unlock() })
+				})
+				a := r.manager([]string{"polling"}, &sio.ManagerConfig{NoReconnection: true})
+				a.Socket("/", nil).Connect()
+				time.Sleep(500 * time.Millisecond)
+				closed := make(chan struct{})
+				go func() { r.server.Close(); close(closed) }()
+				// newcomers at several instants: while the Socket.IO sockets are being closed (the Engine.IO server still accepts), and while
+				// the Engine.IO sessions are being closed (each newcomer's own slow handler keeps that sweep busy for the next one)
+				var ms []*sio.Manager
+				time.Sleep(into)
+				for k := 0; k < 6; k++ {
+					b := r.manager([]string{tr}, &sio.ManagerConfig{NoReconnection: true})
+					ms = append(ms, b)
+					bs := b.Socket("/", nil)
+					bs.OnConnect(func() { mu.Lock(); bConnected = true; mu.Unlock() })
+					bs.Connect()
+					time.Sleep(450 * time.Millisecond)
+				}
+				<-closed
+				time.Sleep(15 * time.Second)
+				left = len(r.server.Sockets())
+				known = r.server.Of("/").Adapter().Sockets(mapset.NewSet[adapter.Room]()).Cardinality()
+				a.Close()
+				for _, b := range ms {
+					b.Close()
+				}
+				time.Sleep(10 * time.Second)
+				r.http.Close()
+				r.net.Close()
+				r.net.cutAll()
+				time.Sleep(10 * time.Minute)
+			})
+			desc := fmt.Sprintf("Server.Close while a disconnecting handler takes 800 ms; six new clients connect over %s, the first %v into the close, then every 450 ms", tr, into)
+			h.Eval()
+			h.NonTrivial(desc)
+			h.Dist("life.connectDuringClose")
+			if left != 0 || known != 0 {
+				h.Violation("C06", "a closed connection leaves a socket behind on the server", desc, fmt.Sprintf("after Close returned (and 15 s): Server.Sockets()=%d, sockets known to the adapter=%d; the newcomer connected=%v", left, known, bConnected))
+			}
+			if disc > conn {
+				h.Violation("C06", "the disconnect handlers of a socket that had connected do not run exactly once", desc, fmt.Sprintf("%d sockets handed to the connection handler, %d disconnects", conn, disc))
 			}
 		}
 	}
